@@ -127,6 +127,11 @@ pub fn family(name: &str) -> GenCfg {
         // sorting routine, several at-most-one helper bits, version sets matching 20+ candidates)
         "many" => GenCfg { npkg: 3, maxver: 48, maxreq: 2, p_con: 25, p_union: 15, p_unknown: 1, p_excl: 5, p_lock: 3, p_fav: 60, p_missing: 3, p_rootcon: 20, p_rank: 60, p_extset: 25, ..GenCfg::tiny() },
         "many-hints" => GenCfg { hints: 1, ..family("many") },
+        // many candidates, most of them excluded or with unknown dependencies: far more than 64
+        // negative assertions in one solve, requirements whose candidate lists are mostly ruled out
+        // at level 1 before they are encoded
+        "many-excl" => GenCfg { npkg: 4, maxver: 80, p_exclmany: 70, p_unknown: 12, p_lock: 15, p_con: 35, ..family("many") },
+        "many-excl-hints" => GenCfg { hints: 1, ..family("many-excl") },
         other => panic!("unknown family {other}"),
     }
 }
